@@ -139,7 +139,10 @@ def gen(rng, tier="quick", prop="C06"):
             T = np.eye(4)
             T[:3, :3] = rng.rot()
             T[:3, 3] = [rng.gauss(0, rob["scale"]) for _ in range(3)]
-            ops.append({"op": "move", "b": b, "frame": f, "pose": (T + 0.0).tolist()})
+            mv = {"op": "move", "b": b, "frame": f, "pose": (T + 0.0).tolist()}
+            if rng.chance(0.4):
+                mv["inplace"] = True  # the caller rewrites the array it registered with add_transform
+            ops.append(mv)
         elif "base-move" in faults:
             ops.append({"op": "base", "b": b, "pose": rng.pose(rng.choice([0.0, 1.0, 10.0]))})
         elif rob["joints"]:
@@ -185,8 +188,8 @@ def gen(rng, tier="quick", prop="C06"):
         if "dup" in faults and rng.chance(0.3):
             op["dup"] = True
         ops.append(op)
-        for _ in range(rng.randint(1, 3)):
-            gen_query(b)
+        for _ in range(rng.randint(0, 3)):
+            gen_query(rng.randrange(nb) if rng.chance(0.3) else b)
     return {"world": WORLD, "cfg": cfg, "ops": ops}
 
 
